@@ -182,13 +182,20 @@ unsigned short le_word(const byte *d)
 
 unsigned long le_quad(const byte *d)
 {
-  return static_cast<unsigned long>(d[0] | (d[1] << 8u) |
-				    (d[2] << 16u) | (d[3] << 24u));
+  return static_cast<unsigned long>(d[0])
+    | (static_cast<unsigned long>(d[1]) << 8u)
+    | (static_cast<unsigned long>(d[2]) << 16u)
+    | (static_cast<unsigned long>(d[3]) << 24u);
 }
 
 std::optional<Header> read_and_verify_header(DFS::FileAccess *f, std::string& error)
 {
   std::vector<byte> header_data = f->read(0, 19);
+  if (header_data.size() < 19)
+    {
+      error = "file is too short to contain an HxC MFM file header";
+      return std::nullopt;
+    }
   const byte* d = header_data.data();
   /* 0x00 - 0x06 is a magic string, including a terminating NUL. */
   const char expected_magic[7] = "HXCMFM";
